@@ -346,7 +346,7 @@ func (t *GzipPacked) UnmarshalTL(d *tl.Decoder) error {
 	}
 
 	// packed object can be a vector (result of rpc call), so hints of outer decoder are passed through
-	t.Obj, err = tl.DecodeUnknownObject(obj, d.ExpectedTypes()...)
+	t.Obj, err = d.DecodeNestedUnknownObject(obj)
 	if err != nil {
 		return errors.Wrap(err, "parsing gzipped object")
 	}
